@@ -13,6 +13,7 @@ import (
 	"go/token"
 	"os"
 	"path/filepath"
+	"sort"
 	"strings"
 )
 
@@ -87,6 +88,29 @@ func main() {
 			os.Exit(2)
 		}
 		off := func(p token.Pos) int { return fset.Position(p).Offset }
+		// copy-paste slips: x.Foo where x.Bar was meant. Siblings = selector names used on the same
+		// base expression text somewhere in the file (a swap to another type does not compile and is dropped).
+		sib := map[string][]string{}
+		ast.Inspect(f, func(n ast.Node) bool {
+			if se, ok := n.(*ast.SelectorExpr); ok {
+				base := string(src[off(se.X.Pos()):off(se.X.End())])
+				if len(base) <= 40 {
+					found := false
+					for _, x := range sib[base] {
+						if x == se.Sel.Name {
+							found = true
+						}
+					}
+					if !found {
+						sib[base] = append(sib[base], se.Sel.Name)
+					}
+				}
+			}
+			return true
+		})
+		for k := range sib {
+			sort.Strings(sib[k])
+		}
 		for _, d := range f.Decls {
 			fd, ok := d.(*ast.FuncDecl)
 			if !ok || fd.Body == nil || skip[fd.Name.Name] {
@@ -202,6 +226,35 @@ func main() {
 						}
 					}
 					return
+				case *ast.SelectorExpr:
+					base := string(src[off(x.X.Pos()):off(x.X.End())])
+					if ss := sib[base]; len(ss) >= 2 {
+						// the most similar sibling name (common prefix + suffix) is the likeliest slip and the
+						// likeliest to have the same type
+						best, score := "", -1
+						for _, name := range ss {
+							if name == x.Sel.Name {
+								continue
+							}
+							a, b := x.Sel.Name, name
+							p := 0
+							for p < len(a) && p < len(b) && a[p] == b[p] {
+								p++
+							}
+							q := 0
+							for q < len(a)-p && q < len(b)-p && a[len(a)-1-q] == b[len(b)-1-q] {
+								q++
+							}
+							if p+q > score {
+								best, score = name, p+q
+							}
+						}
+						if best != "" {
+							emit("sibling-field", x.Sel.Pos(), x.Sel.End(), best)
+						}
+					}
+					walk(x.X)
+					return
 				case *ast.FuncLit:
 					saved := loopDepth
 					loopDepth = nil
@@ -216,7 +269,7 @@ func main() {
 					}
 					switch c.(type) {
 					case *ast.BlockStmt, *ast.IfStmt, *ast.ForStmt, *ast.RangeStmt, *ast.SwitchStmt, *ast.TypeSwitchStmt, *ast.SelectStmt,
-						*ast.BranchStmt, *ast.BinaryExpr, *ast.UnaryExpr, *ast.BasicLit, *ast.FuncLit, *ast.CaseClause, *ast.CommClause:
+						*ast.BranchStmt, *ast.BinaryExpr, *ast.UnaryExpr, *ast.BasicLit, *ast.FuncLit, *ast.CaseClause, *ast.CommClause, *ast.SelectorExpr:
 						walk(c)
 						return false
 					}
